@@ -2,6 +2,7 @@ import HexVerif.Lemmas.XcmpAmImage
 import HexVerif.Lemmas.XcmpIAm
 import HexVerif.Lemmas.XcmpStage3
 import HexVerif.Lemmas.XcmpWitness
+import HexVerif.Lemmas.XcmpV1
 import HexVerif.Xcmp.Compile
 import HexVerif.X.Sem
 /-!
@@ -34,9 +35,17 @@ import HexVerif.X.Sem
     call-free actuals.
   Stages (2) and (3) are Hoare triples over the LOWERED directive list, relative to a procedure
   context `PCtx` whose well-formedness (`PCtx.WF`/`PCtx.WFS`: label names unique, where each
-  variable in scope lives, the frame lies inside memory and outside the code) the whole-program
-  theorem has to establish from `Xcmp.compile P = .ok img`; that instantiation, the peephole pass
-  and stage (4) (user calls) are open.
+  variable in scope lives, the frame lies inside memory and outside the code) a whole-program
+  theorem has to establish from `Xcmp.compile P = .ok img`.
+  * `C01_v1_partial`: the FULL statement above, end to end (source run to ISA run on the bytes), for
+    the class `v1Ok P` (decidable): one procedure `main` without formals, `var` declarations only,
+    body in the stage-3 fragment, and the compilation passes the reflective check `v1Check`
+    (lowered program has the expected shape and is left unchanged by the peephole pass, `PCtx.WFS`
+    holds of the context computed from the compiler's symbol table and the assembler's layout,
+    the stack lies above the image).  The check is computed, not assumed: `Lemmas/XcmpV1.lean`
+    proves it sound, and runner/c01model.py evaluates it on every V1 program of its corpus.
+  Open: the peephole pass as a simulation (so that `optimised = lowered` can go), stage (4) (user
+  calls), and replacing the reflective check by a proof that it always succeeds.
 -/
 namespace Hex.C01
 open Hex Hex.Isa
@@ -178,5 +187,51 @@ example : ∃ a' b' mem',
     (Nat.zero_le _) (Nat.le_refl _) (fun e he => by simp at he)
   rw [C01s.Witness.exec_ok] at h
   exact h
+
+/-! ### Whole programs: the class V1 -/
+
+/-- **`C01_v1_partial`.**  The full C01 statement for the programs that satisfy the decidable
+    predicate `C01s.v1Ok`: a single parameterless `main`, global and local `var`s, a body of
+    assignments, conditionals, loops, sequences and the system calls with call-free expressions,
+    whose compilation passes `C01s.v1Check`.  Every defined behaviour of the reference semantics is
+    exhibited by the ISA running the bytes `xcmp` produces. -/
+theorem C01_v1_partial (P : X.Program) (inp : X.Input) (n : Nat) (β : X.Behaviour) (img : Asm.Image)
+    (hr : C01s.v1Ok P = true) :
+    X.run P inp n = .defined β →
+    Xcmp.compile P = .ok img →
+    ∃ m, Exhibits (Isa.run m (Am.boot img) (Isa.IOSt.init inp.stdin inp.files)) inp β := by
+  intro hrun hcomp
+  obtain ⟨m, code, j, s', io, h1, h2, h3, h4⟩ := C01s.v1_whole P inp n β img hr hcomp hrun
+  exact ⟨m, code, j, s', io, h1, h2, h3, h4⟩
+
+/-- `var g; var n; proc main() is var i; { g := 65; i := 0; while i < 3 do { 1(g + i, 0); i := i + 1 };
+    n := 100000; if g + n = 100065 then 0(g + 1) else skip }` -/
+def demoV1 : X.Program :=
+  { globals := [.var "g", .var "n"],
+    procs := [{ isFunc := false, name := "main", formals := [], locals := [.var "i"],
+                body := .seq [.assign "g" (.num 65), .assign "i" (.num 0),
+                  .while (.bin .ls (.name "i") (.num 3))
+                    (.seq [.syscall 1 [.bin .plus (.name "g") (.name "i"), .num 0],
+                           .assign "i" (.bin .plus (.name "i") (.num 1))]),
+                  .assign "n" (.num 100000),
+                  .ite (.bin .eq (.bin .plus (.name "g") (.name "n")) (.num 100065))
+                    (.syscall 0 [.bin .plus (.name "g") (.num 1)]) .skip] }] }
+
+def behaviourIs (r : X.Result) (exit : Nat) (nevents : Nat) : Bool :=
+  match r with
+  | .defined β => β.exit.toNat == exit && β.events.length == nevents
+  | _ => false
+
+/-! Non-vacuity: `demoV1` is in the class, has a defined behaviour (three characters written, exit
+    value 66) and compiles; so the theorem gives an ISA run on its image with that behaviour. -/
+example : C01s.v1Ok demoV1 = true := by decide +kernel
+example : behaviourIs (X.run demoV1 ⟨[], fun _ => []⟩ 200) 66 3 = true := by decide +kernel
+example : ∃ img, Xcmp.compile demoV1 = .ok img := by
+  cases h : Xcmp.compile demoV1 with
+  | ok img => exact ⟨img, rfl⟩
+  | error e =>
+    have : (match Xcmp.compile demoV1 with | .ok _ => true | .error _ => false) = true := by decide +kernel
+    rw [h] at this
+    simp at this
 
 end Hex.C01
